@@ -13,7 +13,7 @@ Emitted per function: `bw<Fn>Kernel fns… s0 s1 params… i j : R` (entry `[i, 
 source) and `bw<Fn>KernelShape s0 s1 : Int × Int` (its rows and columns in terms of the image shape), plus
 `bw<Fn>Renorm : Bool`. Model/Blur.lean *defines* its kernels by these, so e.g. swapping the factors of the outer product in
 `pixel` changes the model's kernel shape to `(s1, s0)` and `C19.kernel_shape_eq_image_shape` no longer checks."""
-import ast, os
+import ast, os, re
 from py2lean import Refuse
 
 def _u(n): return ast.unparse(n)
@@ -219,7 +219,15 @@ def generate(repo):
         fn = [n for n in mod.body if isinstance(n, ast.FunctionDef) and n.name == fname]
         if not fn: raise Refuse(f'{src}: function {fname} not found')
         k, renorm, defaults, apply_, guard = _translate(fn[0], scalars, fname)
-        if defaults != want_defaults: raise Refuse(f'{fname}: default arguments changed: {defaults}')
+        # default arguments (wave 12): which parameters have one is fixed; the scalar defaults must be integer literals and are EMITTED
+        # (bw<Name>Default<Param>), so that C19.samples_call_is_default_call is a statement about them; `angle=None` stays structural
+        if set(defaults) != set(want_defaults): raise Refuse(f'{fname}: the set of default arguments changed: {defaults}')
+        if 'angle' in want_defaults and defaults['angle'] != 'None': raise Refuse(f'{fname}: default of angle is not None: {defaults}')
+        for p_, d_ in defaults.items():
+            if p_ == 'angle': continue
+            if not re.fullmatch(r'-?\d+', d_): raise Refuse(f'{fname}: default of {p_} is not an integer literal: {d_}')
+            L.append(f'/-- `{fname}`: the default of `{p_}` (the value used by a call that expresses its extent in samples) -/\n'
+                     f'def bw{name}Default{p_.capitalize()} : Int := {d_}\n')
         ps = ' '.join(scalars)
         L.append(f'/-- `{src}:{fname}` (line {fn[0].lineno}): entry `[i, j]` of `kernel`, operations in source order; `freq n i` is '
                  f'`np.fft.fftfreq(n)[i]` -/\n'
@@ -250,7 +258,7 @@ def generate(repo):
                  f'def bw{name}Apply {{I X Y O Kn : Type}} (absF : Y → O) (ifft2F : X → Y) (fft2F : I → X) (mulF : X → Kn → X) (img : I) (kernel : Kn) : O :=\n'
                  f'  {apply_}\n')
     return '\n'.join(L), ['blur kernels: element-wise float expressions translated in source order; NumPy broadcasting of scalars; '
-                          'np.radians(angle) = angle·(π/180); np.random.uniform(lo, hi) = lo + (hi − lo)·u; defaults pixelscale=1, oversample=1, angle=None pinned']
+                          'np.radians(angle) = angle·(π/180); np.random.uniform(lo, hi) = lo + (hi − lo)·u; scalar defaults emitted (bw…Default…), angle=None pinned']
 
 MODULES = [
     {'name': 'BlurWiring', 'src': 'lentil/convolvable.py', 'generator': generate, 'props': ['C19'], 'imports': []},
